@@ -2,11 +2,11 @@ package rules
 
 import (
 	"fmt"
-	"strings"
 	"go/ast"
 	"go/constant"
 	"go/token"
 	"go/types"
+	"strings"
 
 	"verif/sa/core"
 )
@@ -181,6 +181,29 @@ func (w *scanWalker) actionCall(g *core.Func, e *ast.CallExpr, h *core.Func, arg
 		return t
 	}
 	if h == nil || h.Pkg != g.Pkg || h.Body == nil || h.Decl == nil || h.Generated || depth >= 4 || w.inlineOK == nil || !w.inlineOK(h) {
+		// a call that is not followed may write through the pointers it is handed: what
+		// `&x` arguments and a pointer receiver point to is unknown afterwards
+		havoc := func(x ast.Expr) {
+			if t := info.TypeOf(x); t != nil {
+				if _, isStruct := t.Underlying().(*types.Struct); isStruct {
+					w.store(g, p, x, w.opaqueOf(t, "havoc", 0))
+				}
+			}
+		}
+		for _, a := range e.Args {
+			if u, ok := ast.Unparen(a).(*ast.UnaryExpr); ok && u.Op == token.AND {
+				havoc(u.X)
+			}
+		}
+		if se, ok := ast.Unparen(e.Fun).(*ast.SelectorExpr); ok {
+			if sel := info.Selections[se]; sel != nil && sel.Kind() == types.MethodVal {
+				if sig, ok := sel.Type().(*types.Signature); ok && sig.Recv() != nil {
+					if _, ptr := sig.Recv().Type().(*types.Pointer); ptr {
+						havoc(se.X)
+					}
+				}
+			}
+		}
 		return []sres{{p, opaqueResult()}}
 	}
 	// inline h: parameters, and the receiver by copy-in/copy-out
